@@ -7,12 +7,13 @@ PAIRS = [("ii", "Integer x Integer"), ("ib", "Integer x Byte"), ("bi", "Byte x I
          ("ff", "Float x Float"), ("if", "Integer x Float"), ("fi", "Float x Integer"), ("fb", "Float x Byte"), ("bf", "Byte x Float")]
 _hs = []
 for op, sym in [("add", "+"), ("sub", "-"), ("mul", "*"), ("div", "/")]:
-    for k, desc in PAIRS:
+    for k, desc in (PAIRS if op != "div" else PAIRS[3:]):
         _hs.append(h("c09_%s_%s" % (op, k), ["C09", "C08"],
                      "a %s b for %s, every payload%s: Byte mod 2^8, Integer mod 2^64 (wrapping), IEEE with a float operand; no panic"
                      % (sym, desc, " with a non-zero divisor" if op == "div" else "")))
-for k, desc in PAIRS[:4]:
-    _hs.append(h("c09_rem_%s" % k, ["C09", "C08"], "a %% b for %s with a non-zero divisor = wrapping_rem (MIN %% -1 = 0), no panic" % desc))
+_hs.append(h("c09_rem_bb", ["C09", "C08"], "a % b for Byte x Byte with a non-zero divisor = wrapping_rem, no panic"))
+for k, desc in PAIRS[:3]:
+    _hs.append(h("c09_divrem_%s" % k, ["C09", "C08"], "a / b and a %% b for %s with a non-zero divisor: q*b + r == a (mod 2^64), |r| < |b|, r == 0 or sign(r) == sign(a) (truncated division, determines q and r uniquely; MIN / -1 = MIN); no panic" % desc))
 
 UNIT = dict(
     name="ops",
@@ -30,8 +31,6 @@ UNIT = dict(
         h("c09_compare_null_unordered", ["C09"], "null is unordered"),
         h("c06_is_falsey_scalars", ["C06"], "is_falsey on every Bool/Integer/Float/Char/Byte value and Null equals the documented table"),
     ] + [h("c10_hash_%s" % n, ["C10"], "k1 == k2 implies identical hasher input, all %s key pairs" % n.replace("_", " x "))
-         for n in ["int_int", "float_float", "int_float", "float_int", "byte_byte", "char_char", "bool_bool", "null_null"]] + [
-        h("c10_cross_kind_never_equal", ["C10"], "keys of different kinds (other than Integer/Float) are never =="),
-    ],
+         for n in ["int_int", "float_float", "int_float", "float_int", "byte_byte", "char_char", "bool_bool", "null_null"]],
     jobs=16,
 )
